@@ -3,6 +3,7 @@ pub mod c02;
 pub mod c03;
 pub mod c04;
 pub mod c05;
+pub mod c06;
 pub mod c07;
 pub mod c08;
 pub mod c09;
@@ -10,6 +11,7 @@ pub mod c10;
 pub mod c11;
 pub mod c12;
 pub mod c13;
+pub mod c15;
 pub mod c16;
 
 use crate::{
@@ -46,6 +48,12 @@ pub fn run(prop: &str, tier: Tier, budget: f64, out: &mut Outcome) -> Result<(),
     if prop == "C12" {
         return c12::run(tier, budget, out);
     }
+    if prop == "C06" {
+        return c06::run(tier, budget, out);
+    }
+    if prop == "C15" {
+        return c15::run(tier, budget, out);
+    }
     if let Some((plans, rule)) = cells_of(prop, tier) {
         out.rule = rule.into();
         return run_cells(out, plans, budget, 12);
@@ -63,8 +71,11 @@ pub fn replay(path: &str) -> i32 {
     };
     let doc: serde_json::Value = serde_json::from_str(&text).expect("replay file is JSON");
     let prop = doc["property"].as_str().unwrap();
-    if doc["kind"].as_str() == Some("struct") {
-        return c12::replay_struct(&doc);
+    match doc["kind"].as_str() {
+        Some("struct") => return c12::replay_struct(&doc),
+        Some("bytes") => return c06::replay(&doc),
+        Some("codec") => return c15::replay(&doc),
+        _ => {}
     }
     let cell_name = doc["cell"].as_str().unwrap();
     let choices: Vec<u16> = doc["choices"].as_array().unwrap().iter().map(|v| v.as_u64().unwrap() as u16).collect();
